@@ -25,6 +25,7 @@ def ops_all():
                 ops.append("emu %d handler" % n)
                 ops.append("emu %d blocked" % n)   # blocked, disposition already default (sigwait-style caller)
                 ops.append("emu %d oneshot" % n)   # inside a one-shot (SA_RESETHAND) handler of that signal
+                ops.append("emu %d ignored" % n)   # the signal is being ignored (SIGPIPE in a Rust program, nohup)
             if n not in (4, 8, 11):   # register_conditional_default panics on forbidden (C14)
                 ops.append("emu %d cond" % n)
     return ops
@@ -114,7 +115,7 @@ class C16(PropCheck):
         for f in failures:
             uniq.setdefault(f["key"], f)
         return {"evaluations": evals, "distinct_nontrivial": len([o for o in ops if o.startswith("emu")]),
-                "rule": "every signal number 1..64 (except glibc's 32/33) and %d out-of-range numbers, in contexts normal / another signal pending / with a bystander process in the same process group (whose fate is part of the outcome) / on a second thread while the main thread idles / with the signal blocked and its disposition already default / inside a one-shot handler / inside own handler / via register_conditional_default; each case is a pair of forked children (native default vs emulation) classified by waitpid; distinct non-trivial = emulation cases (names excluded)" % len(OUT_OF_RANGE),
+                "rule": "every signal number 1..64 (except glibc's 32/33) and %d out-of-range numbers, in contexts normal / another signal pending / with a bystander process in the same process group (whose fate is part of the outcome) / on a second thread while the main thread idles / with the signal blocked and its disposition already default / inside a one-shot handler / with the signal ignored / inside own handler / via register_conditional_default; each case is a pair of forked children (native default vs emulation) classified by waitpid; distinct non-trivial = emulation cases (names excluded)" % len(OUT_OF_RANGE),
                 "samples": samples, "traces_validated_against_impl": evals, "distribution": dist,
                 "exhaustive": True, "failures": list(uniq.values())}
 
